@@ -145,9 +145,11 @@ def run(ctx, col: Collector):
         idx = ctx.idx
         db = idx.cls('pydbml.database', 'Database')
         derived = {}
-        for m in db.methods.values():
-            if not isinstance(m.node, ast.FunctionDef):
+        from .common import expanded
+        for m0 in db.methods.values():
+            if not isinstance(m0.node, ast.FunctionDef):
                 continue
+            m = expanded(ctx, m0.module, m0.qualname)
             params = {a.arg for a in m.node.args.args[1:]}
             for n in walk_no_nested(m.node):
                 if isinstance(n, ast.Assign) and isinstance(n.targets[0], ast.Subscript):
